@@ -2,6 +2,8 @@ package props
 
 import (
 	"fmt"
+	"os"
+	"path/filepath"
 	"reflect"
 	"regexp"
 	"sort"
@@ -398,6 +400,24 @@ func (x *c01) hostile() {
 			"{% tablerow i in a cols: "+s+" %}{{ i }}{% endtablerow %}", "{% if "+s+" > 1 %}{% endif %}", "{% assign v = "+s+" %}{{ v | minus: 1 }}")
 	}
 	env := hostileEnv
+	// frozen regression inputs: every source that ever produced a genuine violation (or that the development-time
+	// fuzzer found interesting) stays in /verif/corpus/C01 and is replayed first
+	if files, _ := filepath.Glob(filepath.Join(corpusDir(), "C01", "*")); len(files) > 0 {
+		sort.Strings(files)
+		for i, f := range files {
+			if !c.Mine(i) {
+				continue
+			}
+			data, err := os.ReadFile(f)
+			if err != nil || !c.Begin("corpus:"+filepath.Base(f)) {
+				continue
+			}
+			b := env()
+			x.run("corpus", filepath.Base(f), string(data), b, 8, func() string { return "hostile env" })
+			c.Obs("corpus_inputs", 1)
+			c.Distinct("corpus", string(data))
+		}
+	}
 	n := c.Pick(150000, 3000000)
 	for i := 0; i < n+len(inject); i++ {
 		if !c.Mine(i) {
@@ -532,4 +552,11 @@ func (x *c01) typeSequences() {
 			x.judge("type-sequence", names[oi], src, func() string { return desc + " " + gen.Describe(val) }, res)
 		}
 	}
+}
+
+func corpusDir() string {
+	if r := os.Getenv("VERIF_ROOT"); r != "" {
+		return filepath.Join(r, "corpus")
+	}
+	return "/verif/corpus"
 }
